@@ -3,14 +3,18 @@ Oracle for C07: re-computes what the model `Gotlcp.Model.ServerAuthn` predicts f
 one or two connections and evaluates the spec `Gotlcp.Spec.ServerAuthn` on what the real
 server reported.
 
-case     : `stack=tlcp|dtlcp kind=full|script|hist suite=<hex> pol=<Policy> [pol2=<Policy> cfg2=..] cli=<scenario>`
+case     : `stack=tlcp|dtlcp kind=full|script|hist|shist suite=<hex> pol=<Policy> [pol2=<Policy> cfg2=..] cli=<scenario>`
+           (hist: two connections of a real client; shist: two connections of a SCRIPTED client — the
+           second offers the session id announced in the first with the master secret the script
+           derived itself, whether or not the first handshake completed)
            then per connection K ∈ {1,2} the client's behaviour as seen on the wire and the verdicts
            of the real path validation under the server's configuration:
            `K.e=0|1 K.msg=0|1 K.n=<certs> K.parse=0|1 K.c0=<okClient okClientOrServer okAny keyKind|-> K.c1=..
             (keyKind: s = SM2, p = elliptic curve other than SM2, r = RSA, x = anything else)
             K.kx=0|1 K.cv=none|<byLeafKey overTranscript> K.fin=0|1 [K.sig=0|1]`
            and for histories `now0= now1=` (the certificates of connection 1 judged under the
-           configuration of connection 2)
+           configuration of connection 2) and `2.offer=0|1` (the second ClientHello carries a
+           session id)
 observed : per connection `K.srv=done|err K.resumed=0|1|- K.peers=<n>|- K.chains=0|1|- K.req=0|1|-`
            and, not constrained by the property (copied; differences are notes):
            `K.cls=<error class> K.alert=<n> K.cli=ok|err`
@@ -123,7 +127,7 @@ def orElse (a b : Option (String × String)) : Option (String × String) :=
 
 /-- what the model predicts for the history (model string, notes); needs the tables -/
 def modelOf (t : Tables) (p1 : Policy) (c1 : ConnCase) (ob1 : ConnObs)
-    (second : Option (Policy × ConnCase × ConnObs)) (now0 now1 : Option Cert) : String × String :=
+    (second : Option (Policy × ConnCase × ConnObs)) (now0 now1 : Option Cert) (offer : Bool) : String × String :=
   let r1 := full t p1 c1.b
   let noSuite := ob1.cls == "suite"
   let m1 := if noSuite then s!"1.srv=err 1.resumed=- 1.peers=- 1.chains=- 1.req=- {copied "1" ob1}" else showFull "1" r1 ob1
@@ -131,10 +135,9 @@ def modelOf (t : Tables) (p1 : Policy) (c1 : ConnCase) (ob1 : ConnObs)
   | none => (m1, stageNote "1" r1.stage ob1)
   | some (p2, c2, ob2) =>
     let recorded := mkCerts r1.recorded now0 now1
-    let rs : Resume := { cacheHit := r1.completed && !noSuite, mechOK := true, ecdhe := c1.b.ecdhe, recorded := recorded,
-                         finishedOK := c2.b.finishedOK }
+    -- the cache answers iff createSessionState ran in the first handshake (completed or not)
     let (m2, stage2) : String × Stage :=
-      match resume t p2 rs with
+      match history t p1 p2 c1.b recorded (offer && !noSuite) true c2.b.finishedOK with
       | .notResumed => let r2 := full t p2 c2.b; (showFull "2" r2 ob2, r2.stage)
       | .resumedDone n ch => (s!"2.srv=done 2.resumed=1 2.peers={n} 2.chains={b01 ch} 2.req=- {copied "2" ob2}", .done)
       | .resumedFailed s => (s!"2.srv=err 2.resumed=- 2.peers=- 2.chains=- 2.req=- {copied "2" ob2}", s)
@@ -160,7 +163,7 @@ def judge (c o : String) : Option Verdict := do
   let now1 := (kv ct "now1").bind parseCert
   -- second connection of a history
   let second : Option (Policy × ConnCase × ConnObs) ←
-    if kind != "hist" then pure none else do
+    if kind != "hist" && kind != "shist" then pure none else do
       let p2 ← (kv ct "pol2").bind Policy.ofName
       let c2 ← parseConn ct "2"
       let ob2 ← parseObs ot "2"
@@ -174,17 +177,22 @@ def judge (c o : String) : Option Verdict := do
       let orig : Behaviour := { c1.b with certs := mkCerts c1.b.sent.length now0 now1, certMsg := c1.b.certMsg }
       let s2 : Option (String × String) :=
         if ob2.o.completed && ob2.o.resumed then
-          if !ob1.o.completed then some ("resumed-unfinished", "a session was resumed whose handshake never completed")
+          if !ob1.o.completed then
+            -- the clause of the property that is broken, when there is one; else the plain fact
+            orElse (judgeResumed p2 orig ob2.o)
+              (some ("resumed-unfinished", "a session was resumed whose handshake never completed"))
           else judgeResumed p2 orig ob2.o
         else orElse (sigCheck c2) (judgeFull p2 c2.b ob2.o)
       orElse s1 s2
-  let trivial := if kind != "hist" then noSuite else !ob1.o.completed
+  -- a real client only ever offers the session of a completed handshake; a scripted one always does
+  let trivial := if kind == "hist" then !ob1.o.completed else noSuite
+  let offer := (kv ct "2.offer").getD "1" == "1"
   -- the MODEL prediction needs the tables regenerated from the source; when the source has
   -- moved outside the model's vocabulary there is no prediction (reported as a disagreement)
   match tablesFor stack with
   | none => pure { model := "model=unavailable(the extracted facts are outside the model's vocabulary)", spec := spec, trivial := trivial }
   | some t =>
-    let (m, note) := modelOf t p1 c1 ob1 second now0 now1
+    let (m, note) := modelOf t p1 c1 ob1 second now0 now1 offer
     pure { model := m, spec := spec, note := note, trivial := trivial }
 
 end Gotlcp.Oracle.C07
